@@ -94,7 +94,7 @@ def confirm(d):
 
 def check(d, tier="quick", props=None, seed=None):
     meta = json.load(open(os.path.join(d, "meta.json")))
-    props = props or [meta["property"]]
+    props = props or meta.get("checked_by") or [meta["property"]]
     tmp = tempfile.mkdtemp(prefix="verif-seedchk-")
     out = {}
     try:
